@@ -16,7 +16,7 @@ Model (JSON):
 import json, sys
 
 CTYPE = {"u64": "uint64_t", "i32": "int32_t", "Pt": "struct Pt", "slice": "struct CSliceRef_u8", "ptr": "const uint8_t *", "void": "void",
-         "cbPt": "OpaqueCallback_Pt", "cbu64": "OpaqueCallback_u64"}
+         "cbPt": "OpaqueCallback_Pt", "cbu64": "OpaqueCallback_u64", "fnptr": "void (*)(int32_t)"}
 CB_ELEM = {"cbPt": ("Pt", "struct Pt"), "cbu64": ("u64", "uint64_t")}
 INST_NAME = {"Box": "CBox_c_void", "Mut": "____c_void", "Ref": "_____c_void"}
 INST_FIELD = {"Box": "struct CBox_c_void instance;", "Mut": "void *instance;", "Ref": "const void *instance;"}
@@ -85,9 +85,16 @@ def group_suffix(cont, ctx):
     return ("%s__%s" % (inst_part(cont), ctx_part(ctx))).rstrip("_")
 
 
+def decl(ctype, name):
+    """C declarator of a parameter: the name goes inside a function pointer declarator"""
+    if "(*)" in ctype:
+        return ctype.replace("(*)", "(*%s)" % name)
+    return "%s%s%s" % (ctype, "" if ctype.endswith("*") else " ", name)
+
+
 def proto(m, cont_struct):
     recv = {"ref": "const struct %s *cont" % cont_struct, "mut": "struct %s *cont" % cont_struct, "own": "struct %s cont" % cont_struct}[m["recv"]]
-    args = "".join(", %s%sa%d" % (CTYPE[t], "" if CTYPE[t].endswith("*") else " ", i) for i, t in enumerate(m["args"]))
+    args = "".join(", " + decl(CTYPE[t], "a%d" % i) for i, t in enumerate(m["args"]))
     ret = ("struct %s" % cont_struct) if m["ret"] == "cont" else CTYPE[m["ret"]]
     return "%s%s(*%s)(%s%s);" % (ret, "" if ret.endswith("*") else " ", m["name"], recv, args)
 
